@@ -308,6 +308,13 @@ func (v *Vue) evalSegment(ctx VueContext, seg pipeSegment, input any, isFirst, f
 		}
 		result, err := v.exprEval.Eval(seg.expr, env)
 		if err != nil {
+			// The expression library cannot negate nil or non-boolean values; negate the
+			// truthiness of the operand instead, like conditions do.
+			if trimmed := strings.TrimSpace(seg.expr); strings.HasPrefix(trimmed, "!") {
+				if inner, innerErr := v.exprEval.Eval(strings.TrimSpace(trimmed[1:]), env); innerErr == nil {
+					return !helpers.IsTruthy(inner), nil
+				}
+			}
 			return nil, fmt.Errorf("in expression '%s': %w", seg.expr, err)
 		}
 		return result, nil
